@@ -27,6 +27,12 @@ RULE = ("Intel-HEX images written by an own writer from a generated list of data
         "private scalar in raw / hex / DER / PEM form (the key is captured by wrapping "
         "ecdsa.SigningKey.generate), exactly one key is generated per run and it differs "
         "between runs. distinct = (#areas, #zones, ordered?, #images); non-trivial = all")
+RULE_ADDED = (
+              'Also: areas of zeros / 0xff / zeros but one byte; images with the same code as '
+              "another; the same file name in other directories and prefix names; each image's "
+              'message written into the same output file in turn; repeated signing runs in place; a '
+              'third of the shards under python -O ')
+RULE = RULE + " " + RULE_ADDED.strip()
 ASSUMPTIONS = [
     "own Intel-HEX writer (pv/gen/ihex.py); areas do not overlap",
     "signature verification by cryptography/OpenSSL (the tool signs with python-ecdsa)",
